@@ -103,6 +103,10 @@ def native_replay(g, bu, inputs, outdir, tag):
                '-I' + os.path.join(REPO, 'src'), '-I' + os.path.join(VERIF, 'drivers'), '-I' + os.path.join(VERIF, 'replay'),
                src, '-o', exe, '-pthread']
         links = re.findall(r'^//LINK\s+(\S+)', g.replay, re.M)
+        if re.search(r'^//LINKALL\b', g.replay, re.M):
+            import glob as _glob
+            links += [os.path.relpath(f_, REPO) for f_ in sorted(_glob.glob(os.path.join(REPO, 'src', '*.cpp')) + _glob.glob(os.path.join(REPO, 'src', 'detail', '*.cpp')))
+                      if os.path.basename(f_) not in ('assert.cpp',)]
         if pl.CONFIGS[bu.cfg][0] and 'src/detail/assert.cpp' not in links and '<detail/assert.cpp>' not in g.replay:
             links.append('src/detail/assert.cpp')
         cmd += [os.path.join(REPO, l) for l in links]
